@@ -106,46 +106,52 @@ def newRec (s : St) (r : Rec) : St :=
   { s with recs := (fun j => if j = s.nrec then r else s.recs j), nrec := s.nrec + 1,
            cache := fun k => if k = r.user then some s.nrec else s.cache k }
 
-/-- `Auth::Basic::User::updateCached` -/
-def updateCached (rc : Rec) (p : Pw) : Rec :=
-  let rc1 := if rc.passwd ≠ p then { rc with cred := .unchecked, passwd := p } else rc
-  if rc1.cred = .failed then { rc1 with cred := .unchecked } else rc1
+/-- first `if` of `Auth::Basic::User::updateCached`: a different password replaces the stored one and resets the state -/
+def swapPw (rc : Rec) (p : Pw) : Rec := if rc.passwd = p then rc else { rc with cred := .unchecked, passwd := p }
 
-/-- the cache part of `Auth::Basic::Config::decode`: the record the request gets linked to -/
+/-- second `if` of `Auth::Basic::User::updateCached`: a failed record is checked again -/
+def resetFailed (rc : Rec) : Rec := if rc.cred = .failed then { rc with cred := .unchecked } else rc
+
+/-- `Auth::Basic::User::updateCached` -/
+def updateCached (rc : Rec) (p : Pw) : Rec := resetFailed (swapPw rc p)
+
+/-- the cache part of `Auth::Basic::Config::decode`: the record the request gets linked to (state, record, 0 new / 1 same
+password / 2 password replaced / 3 own record in the repaired variant) -/
 def decodeUser (cfg : Cfg) (s : St) (u : Name) (p : Pw) : St × Nat × Nat :=
   match s.cache u with
   | none => (newRec s { user := u, passwd := p, cred := .unchecked, expire := s.now, queue := [] }, s.nrec, 0)
   | some i =>
-    let rc := s.recs i
-    if cfg.fresh ∧ rc.cred = .pending ∧ rc.passwd ≠ p then
+    if cfg.fresh = true ∧ (s.recs i).cred = .pending ∧ (s.recs i).passwd ≠ p then
       (newRec s { user := u, passwd := p, cred := .unchecked, expire := s.now, queue := [] }, s.nrec, 3)
     else
-      (setRec s i (updateCached rc p), i, if rc.passwd ≠ p then 2 else 1)
+      (setRec s i (updateCached (s.recs i) p), i, if (s.recs i).passwd ≠ p then 2 else 1)
 
 /-- `Auth::Basic::User::authenticated` -/
 def authenticated (cfg : Cfg) (now : Nat) (rc : Rec) : Bool :=
   rc.cred = .ok && decide (now < rc.expire + cfg.ttl)
 
+/-- `startHelperLookup`, Pending branch: a QueueNode is pushed on the record's queue -/
+def enqueue (s : St) (i : Nat) (r : Req) : St := setRec s i { s.recs i with queue := r :: (s.recs i).queue }
+
+/-- `startHelperLookup`, other branch: the record is marked Pending and the record's *current* password goes to the helper -/
+def submitLookup (s : St) (i : Nat) (r : Req) : St :=
+  setRec { s with lookups := s.lookups ++ [{ id := s.nextId, ri := i, pw := (s.recs i).passwd, req := r }], nextId := s.nextId + 1 }
+    i { s.recs i with cred := .pending }
+
 /-- `Auth::Basic::UserRequest::startHelperLookup` -/
 def startLookup (s : St) (i : Nat) (r : Req) : St × List Out :=
-  let rc := s.recs i
-  if rc.cred = .pending then
-    (setRec s i { rc with queue := r :: rc.queue }, [.queued r])
-  else
-    let s1 := setRec s i { rc with cred := .pending }
-    ({ s1 with lookups := s1.lookups ++ [{ id := s.nextId, ri := i, pw := rc.passwd, req := r }], nextId := s.nextId + 1 },
-     [.submit s.nextId rc.user rc.passwd r])
+  if (s.recs i).cred = .pending then (enqueue s i r, [.queued r])
+  else (submitLookup s i r, [.submit s.nextId (s.recs i).user (s.recs i).passwd r])
 
 /-- the tail of `Auth::UserRequest::authenticate` once the request is linked to record i
 (`authenticateUserAuthenticated`, `direction()`, the four `Auth::Direction` cases) -/
 def tryAuth (cfg : Cfg) (s : St) (i : Nat) (r : Req) : St × List Out :=
-  let rc := s.recs i
-  if authenticated cfg s.now rc then (s, [.forward r rc.user s.now])
-  else match rc.cred with
+  if authenticated cfg s.now (s.recs i) then (s, [.forward r (s.recs i).user s.now])
+  else match (s.recs i).cred with
     | .unchecked => startLookup s i r      -- CRED_LOOKUP
     | .pending => startLookup s i r        -- CRED_LOOKUP
     | .ok => startLookup s i r             -- expired: CRED_LOOKUP
-    | .failed => (s, [.challenge r (some rc.user)])   -- CRED_VALID but not authenticated
+    | .failed => (s, [.challenge r (some (s.recs i).user)])   -- CRED_VALID but not authenticated
 
 def arrive (cfg : Cfg) (s : St) (r : Req) : St × List Out :=
   match r.creds with
@@ -154,28 +160,27 @@ def arrive (cfg : Cfg) (s : St) (r : Req) : St × List Out :=
   | .noUser => (s, [.challenge r none])
   | .broken u => (s, [.challenge r (some u)])
   | .basic u p =>
-    let d := decodeUser cfg s u p
-    let t := tryAuth cfg d.1 d.2.1 r
-    (t.1, .decoded r d.2.2 :: t.2)
+    ((tryAuth cfg (decodeUser cfg s u p).1 (decodeUser cfg s u p).2.1 r).1,
+     .decoded r (decodeUser cfg s u p).2.2 :: (tryAuth cfg (decodeUser cfg s u p).1 (decodeUser cfg s u p).2.1 r).2)
 
 /-- resume the waiters one after the other (each sees the state its predecessors left) -/
 def resumeAll (cfg : Cfg) (i : Nat) : St → List Req → St × List Out
   | s, [] => (s, [])
   | s, r :: rest =>
-    let t := tryAuth cfg s i r
-    let u := resumeAll cfg i t.1 rest
-    (u.1, t.2 ++ u.2)
+    ((resumeAll cfg i (tryAuth cfg s i r).1 rest).1, (tryAuth cfg s i r).2 ++ (resumeAll cfg i (tryAuth cfg s i r).1 rest).2)
+
+/-- `HandleReply`: the verdict goes into the record the asking request is linked to; its queue is handed to the resumption loop -/
+def settle (s : St) (l : Lookup) (ok : Bool) : St :=
+  setRec { s with lookups := s.lookups.erase l } l.ri
+    { s.recs l.ri with cred := if ok then .ok else .failed, expire := s.now, queue := [] }
 
 /-- `Auth::Basic::UserRequest::HandleReply` -/
 def reply (cfg : Cfg) (s : St) (id : Nat) (ok : Bool) : St × List Out :=
   match s.lookups.find? (fun l => l.id = id) with
   | none => (s, [])
   | some l =>
-    let rc := s.recs l.ri
-    let s1 := { setRec s l.ri { rc with cred := if ok then .ok else .failed, expire := s.now, queue := [] }
-                with lookups := s.lookups.erase l }
-    let t := resumeAll cfg l.ri s1 (l.req :: rc.queue)
-    (t.1, .verdict id rc.user l.pw ok s.now :: t.2)
+    ((resumeAll cfg l.ri (settle s l ok) (l.req :: (s.recs l.ri).queue)).1,
+     .verdict id (s.recs l.ri).user l.pw ok s.now :: (resumeAll cfg l.ri (settle s l ok) (l.req :: (s.recs l.ri).queue)).2)
 
 /-- `Auth::CredentialsCache::cleanup`: entries with `expiretime <= current_time - authenticate_ttl` leave the cache -/
 def gc (cfg : Cfg) (s : St) : St :=
